@@ -162,3 +162,42 @@ Theorem C07_apply_masking_packed_refuted :
   exists d A raw, fill_ok d A = true /\ apply_masking_model d A true raw <> Ok (read_model d A true true raw).
 Proof. exact apply_masking_packed_refuted. Qed.
 Print Assumptions C07_apply_masking_packed_refuted.
+
+(* Stored byte order.  The integer elements of a variable are modelled as their bytes in
+   the stored order (little- or big-endian); the _Unsigned view re-reads those bytes with a
+   view type that keeps the byte order of the data.  What a read presents - values, mask
+   and type, for every data type, attribute combination, mask / unpack setting and length -
+   is what the model on values presents, hence independent of the stored byte order. *)
+Theorem C07_read_stored_values :
+  forall bo d A mask unpack raw,
+  Forall (fun v => safe_val d v = true) raw ->
+  read_stored bo d A mask unpack (map (store bo d) raw) = read_model d A mask unpack raw.
+Proof. exact read_stored_values. Qed.
+Print Assumptions C07_read_stored_values.
+
+Theorem C07_byte_order_independent :
+  forall bo1 bo2 d A mask unpack raw,
+  Forall (fun v => safe_val d v = true) raw ->
+  read_stored bo1 d A mask unpack (map (store bo1 d) raw)
+  = read_stored bo2 d A mask unpack (map (store bo2 d) raw).
+Proof. exact byte_order_independent. Qed.
+Print Assumptions C07_byte_order_independent.
+
+(* A view type that does not carry the byte order of the data ("u<itemsize>") presents
+   byte-swapped values and a wrong mask for big-endian data. *)
+Theorem C07_native_view_refuted :
+  exists d A raw, Forall (fun v => safe_val d v = true) raw /\
+    read_stored_native_view BE d A true true (map (store BE d) raw) <> read_model d A true true raw.
+Proof. exact native_view_refuted. Qed.
+Print Assumptions C07_native_view_refuted.
+
+(* Identity packing with one attribute (only scale_factor = 1, or only add_offset = 0, of
+   any type, after handoff/C07-fix3-1.diff): every value of the (viewed) data is presented
+   unchanged, as the netCDF4 library presents it.  (With both attributes the data are cast
+   to the scale factor's type, as the library does.) *)
+Theorem C07_identity_packing_keeps_values :
+  forall dd ts to x, safe_val dd x = true ->
+  unpack_elem dd (Some (ts, Fin 1)) None x = x /\
+  unpack_elem dd None (Some (to, Fin 0)) x = x.
+Proof. exact identity_packing_keeps_values. Qed.
+Print Assumptions C07_identity_packing_keeps_values.
